@@ -503,12 +503,15 @@ def _check_property(prop, tier, seed, mine, scratch, findings, t0):
         # panicking. C19 is purely "never a crash", C15 is validation (status, error content, no panic), the others are value properties.
         value_kind = e['message'].startswith('postcondition not satisfied') or 'invariant' in e['message']
         siblings = [x for x in props_f if x != prop]
-        if prop == 'C19':
-            shared = own and bool(siblings) and value_kind
-        elif prop == 'C15':
-            shared = own and bool(siblings) and value_kind
+        # the first tag is the property the contract states directly (C19 never is: it is about the absence of panics)
+        primary = next((x for x in props_f if x != 'C19'), None)
+        if not siblings:
+            shared = False
+        elif value_kind:
+            shared = own and prop != primary
         else:
-            shared = own and any(x in ('C19', 'C15') for x in siblings) and not value_kind
+            # a panic-kind obligation speaks for C19 / C15 (if tagged) and for the primary property
+            shared = own and not (prop in ('C19', 'C15') or prop == primary)
         if shared and not has_input:
             # The function's contract carries several properties at once (value and validation of a setter: C09 and C15; offset
             # and crash-freedom of a lookup: C18 and C19). The battery of this property looks only at what this property is about
